@@ -283,6 +283,12 @@ Manifest decode_manifest(const std::string& uri) {
 
     const auto expires = read_u64(payload, offset);
     offset += 8;
+    // The wire value is whole seconds; system_clock counts finer ticks, so an extreme value would overflow the conversion.
+    constexpr auto kMaxExpirySeconds =
+        std::chrono::duration_cast<std::chrono::seconds>(std::chrono::system_clock::duration::max()).count();
+    if (expires > static_cast<std::uint64_t>(kMaxExpirySeconds)) {
+        throw std::invalid_argument("manifest expiry out of range");
+    }
     manifest.expires_at = std::chrono::system_clock::time_point{std::chrono::seconds{expires}};
 
     manifest.threshold = payload[offset++];
